@@ -151,3 +151,23 @@ Ltac leaf_list_int H :=
   match goal with
   | |- context [zmem ?z ?vs] => let M := fresh "Hmem" in destruct (zmem z vs) eqn:M
   end; try reflexivity; exfalso; zcases; try discriminate; list_facts; finish.
+
+(* totality: on well-typed arguments the decision is a value, it does not raise.  H : <decision> = Err e *)
+Ltac total_case H :=
+  py_eval H; try discriminate H;
+  try (exfalso; match goal with E : zsort ?vs = [] |- _ =>
+         apply zsort_nil in E; subst; cbn [List.length Z.of_nat] in *; congruence end).
+Ltac split_res :=
+  match goal with |- exists b, ?t = Ok b =>
+    let r := fresh "r" in let e := fresh "e" in let H := fresh "H" in
+    destruct t as [r|e] eqn:H; [exists r; reflexivity|exfalso; total_case H] end.
+Ltac unwrap_arrays_goal :=
+  repeat match goal with
+  | |- exists b, ?f ?o ?c (PArr [?m]) ?hi = Ok b => change (exists b, f o c m hi = Ok b)
+  | |- exists b, ?f ?o ?c ?lo (PArr [?m]) = Ok b => change (exists b, f o c lo m = Ok b)
+  end.
+Ltac lift_total core Hlo Hhi :=
+  let a := fresh "a" in let b := fresh "b" in let La := fresh "La" in let Lb := fresh "Lb" in
+  destruct Hlo as [->|[a [[->| ->] La]]]; destruct Hhi as [->|[b [[->| ->] Lb]]];
+  unwrap_arrays_goal;
+  (eapply core; first [left; reflexivity | right; eexists; split; [reflexivity|eassumption]]).
